@@ -711,7 +711,7 @@ theorem skipBinAt_cause : ∀ d (b0 : Bytes) (off : Nat) (t : UInt8), off < b0.l
             · simp only [hst, if_true]
               have := structLoop_cause (fun ft => hE b ft) (b.length + 1) 0 (by omega)
               simpa [cmap_id] using this
-            · simp [hst, hm, errUnknownType_pe]
+            · simp [hst, errUnknownType_pe]
 
 theorem toOut_eq (x : CRes) :
     toOut x = match x with | .ok n => .ok n | .error c => .err (.pe (typeIdOf c)) := by
